@@ -230,7 +230,7 @@ def crash_check(chk, lean_ok):
         k = ops_of(block)[p].split()[1]
         op_kinds[k] = op_kinds.get(k, 0) + 1
     cov.update(evaluations=points, distinct_nontrivial=points,
-               rule="one evaluation = one process death: the real library killed immediately before (or half-way through) its k-th mutating file-system call of a launch [init ; call], followed by a real re-launch; k enumerates every such call of the launch",
+               rule="one evaluation = one fault: the real library killed immediately before (mode kill) or half-way through (torn) its k-th mutating file-system call of a launch [init ; call], or that call failing with EIO/ENOSPC while execution continues (eio; judged only, no theorem), followed by a real re-launch; k enumerates every such call of the launch",
                experiments=experiments, crash_points=points, disagreements_relevant=diffs, monitor_rejections=jfails,
                experiment_kinds=modes, interrupted_calls=op_kinds,
                samples=[{"experiment": eid, "interrupted_call": ops_of(block)[p][2:80], "release_change": bool(nv), "mode": mode}
